@@ -195,23 +195,47 @@ class AsyncLRUCacheWrapper(Generic[P, T]):
 
         async with lock:
             # Check if another task filled the cache while we acquired the lock
-            if (cached_value := cache_entry[key][0]) is initial_missing:
-                self._misses += 1
-                if self._maxsize is not None and self._currsize >= self._maxsize:
-                    cache_entry.popitem(last=False)
-                else:
-                    self._currsize += 1
-
-                value = await self.__wrapped__(*args, **kwargs)
-                expires_at = (
-                    current_time() + self._ttl if self._ttl is not None else None
-                )
-                cache_entry[key] = value, None, expires_at
-            else:
+            entry = cache_entry.get(key)
+            if entry is not None and entry[1] is None:
                 # Another task filled the cache while we were waiting for the lock
                 self._hits += 1
                 cache_entry.move_to_end(key)
-                value = cast(T, cached_value)
+                return cast(T, entry[0])
+
+            self._misses += 1
+            if entry is None:
+                # The placeholder was removed after a failed call; put it back so that
+                # concurrent callers keep waiting on the same lock
+                cache_entry[key] = initial_missing, lock, None
+
+            try:
+                value = await self.__wrapped__(*args, **kwargs)
+            except BaseException:
+                # Don't leave a placeholder behind unless other tasks are waiting to
+                # retry the call
+                entry = cache_entry.get(key)
+                if (
+                    entry is not None
+                    and entry[1] is lock
+                    and not lock.statistics().tasks_waiting
+                ):
+                    del cache_entry[key]
+
+                raise
+
+            expires_at = current_time() + self._ttl if self._ttl is not None else None
+            cache_entry[key] = value, None, expires_at
+            cache_entry.move_to_end(key)
+            self._currsize += 1
+
+            # Only finished results count against maxsize; calls still in flight are
+            # never evicted, as other tasks may be waiting for them
+            if self._maxsize is not None and self._currsize > self._maxsize:
+                for old_key, old_entry in cache_entry.items():
+                    if old_entry[1] is None:
+                        del cache_entry[old_key]
+                        self._currsize -= 1
+                        break
 
         return value
 
